@@ -309,6 +309,7 @@ inductive Prim where
   | sync (f : Ext)
   | create (f : Ext)       -- `openOrCreateFile`: creates an empty file if there is none
   | remove (f : Ext)
+  | truncate (f : Ext) (n : Nat)   -- `ftruncate` to `n` bytes
   deriving Repr, DecidableEq, Inhabited
 
 /-- `pwrite`: overwrite / extend (a gap is zero-filled; the store never leaves one) -/
@@ -324,6 +325,9 @@ def applyPrim (fs : FS) : Prim → FS
       | some _ => fs
       | none => fs.set f (some [])
   | .remove f => fs.set f none
+  | .truncate f n => match fs.get f with
+      | some c => fs.set f (some (c.take n))
+      | none => fs
 
 def applyPrims (fs : FS) (ps : List Prim) : FS := ps.foldl applyPrim fs
 
@@ -384,13 +388,20 @@ def populateCache (c : MemStore) (fs : FS) : Bool × MemStore :=
 
 def openPrims : List Prim := [.create .body, .create .header, .create .session, .create .sender, .create .target]
 
-/-- `Refresh`: cache.Reset, Close, populateCache, open/create the five files, write the session file if the creation
-    time was not populated, rewrite both counter files from the cache.  Returns the new store and its primitives. -/
+/-- length of the header contents up to and including the last newline -/
+def keepLen (h : Bytes) : Nat := h.length - (h.reverse.takeWhile (· ≠ cNL)).length
+
+/-- `dropIncompleteIndexLine` (after the `fix:`): truncate the header file after its last newline if a tail without newline is there -/
+def truncPrims (sync : Bool) (h : Bytes) : List Prim :=
+  if keepLen h = h.length then [] else [.truncate .header (keepLen h)] ++ syncIf sync .header
+
+/-- `Refresh`: cache.Reset, Close, populateCache, open/create the five files, drop an incomplete trailing index line, write the
+    session file if the creation time was not populated, rewrite both counter files from the cache.  Returns the new store and its primitives. -/
 def refreshOp (st : FStore) (fs : FS) (now : Nat) : FStore × List Prim :=
   let c0 := st.cache.reset now
   let p1 := closePrims st.opened
   let (pop, c1) := populateCache c0 fs
-  let p2 := openPrims
+  let p2 := openPrims ++ truncPrims st.sync (fs.header.getD [])
   let p3 := if pop then [] else setSessionPrims st.sync c1.ctime
   let p4 := setSeqNumPrims st.sync .sender c1.nextS
   let c2 := c1.setS c1.nextS
@@ -597,6 +608,7 @@ structure DFS where
 def applyPrimD (d : DFS) (p : Prim) : DFS :=
   match p with
   | .write .. => { d with vol := applyPrim d.vol p }
+  | .truncate .. => { d with vol := applyPrim d.vol p }
   | .sync f => { d with dur := d.dur.set f (d.vol.get f) }
   | .create _ => { vol := applyPrim d.vol p, dur := applyPrim d.dur p }
   | .remove _ => { vol := applyPrim d.vol p, dur := applyPrim d.dur p }
